@@ -646,7 +646,13 @@ def main():
                         ok = okv(items[hit[0]]) if hit else (isnull and not e.check(z3.And(idx >= 0, idx < len(items))))
                     elif lk == "string" and rk == "int":
                         got_some = [x for x in aux if x[0] == "str_get"]
-                        ok = len(got_some) == 1 and (isnull or (res[1] == "Result::Ok" and res[2][0][1] == "Value::String"))
+                        idx = b[2][0]
+                        if got_some:
+                            ok = len(got_some) == 1 and surely(got_some[0][1] == idx) and surely(got_some[0][2] == idx + 1) \
+                                and (isnull or (res[1] == "Result::Ok" and res[2][0][1] == "Value::String"))
+                        else:
+                            # without consulting the string only an index that cannot be a position may be answered
+                            ok = isnull and not e.check(z3.And(idx >= 0, idx < z3.Int("strlen")))
                     elif lk == "map" and rk in key_kinds:
                         mg = [x for x in aux if x[0] == "map_get"]
                         ok = len(mg) == 1 and surely(same(mg[0][2], ("enum", key_kinds[rk], [b[2][0]]))) and (isnull or okv(("abs_val", "found")))
@@ -802,6 +808,7 @@ def main():
             run_scenario("CONDITIONAL", list(ks))
     except Unsupported as u:
         status = 2
+        if os.environ.get("MIRSYM_TRACE"): import traceback; traceback.print_exc()
         print("INCONCLUSIVE: unsupported: %s" % u)
     if failures and status == 0:
         status = 1
